@@ -140,6 +140,7 @@ func cmdCheck(args []string) int {
 	encoded := map[string]bool{}
 	reachedSites := map[string]bool{}
 	allSites := map[string]bool{}
+	unrefined := map[string]int{}
 	rng := rand.New(rand.NewSource(seed))
 	var samples []interface{}
 
@@ -153,6 +154,10 @@ func cmdCheck(args []string) int {
 	}
 	var wits []*witness
 	unwitnessed := 0
+	witBudget := 45 * time.Second
+	if tier == 1 {
+		witBudget = 240 * time.Second
+	}
 
 	for _, r := range results {
 		if *verbose {
@@ -189,6 +194,8 @@ func cmdCheck(args []string) int {
 				solverAgree[fmt.Sprintf("unsat_by_%d_solvers", n)]++
 			case "inconclusive":
 				inconclusive = append(inconclusive, fmt.Sprintf("%s/%s@%s: %s %v", r.Name, o.Label, o.PathID, o.Reason, o.Solvers))
+			case "violated-unrefined":
+				unrefined[r.Name+"/"+o.Label]++
 			case "violated-candidate":
 				c := &candidate{ob: o, kind: "assert", finding: o.Finding}
 				c.vec = vectorFromModel(r.Name, fmt.Sprintf("cand-%d", len(cands)), o.Model, o.Choices, tier)
@@ -230,6 +237,7 @@ func cmdCheck(args []string) int {
 			maxW = 60
 		}
 		rng.Shuffle(len(okLeaves), func(i, j int) { okLeaves[i], okLeaves[j] = okLeaves[j], okLeaves[i] })
+		witDeadline := time.Now().Add(witBudget / time.Duration(len(results)))
 		tried := 0
 		got := 0
 		for _, lf := range okLeaves {
@@ -242,7 +250,7 @@ func cmdCheck(args []string) int {
 			for _, o := range lf.Obs {
 				extra = append(extra, o.Val)
 			}
-			mr := solveModel(ss, lf.PC, names, nts, extra, 10000, false)
+			mr := solveModelB(ss, lf.PC, names, nts, extra, 3000, false, witDeadline, 6)
 			if mr.Status != "sat" {
 				unwitnessed++
 				continue
@@ -261,7 +269,10 @@ func cmdCheck(args []string) int {
 		for _, c := range cands {
 			k := c.ob.Harness + "/" + c.ob.Label + "/" + c.kind
 			perSite[k]++
-			if perSite[k] <= 3 {
+			if perSite[k] == 1 {
+				perSite[k] += unrefined[c.ob.Harness+"/"+c.ob.Label]
+			}
+			if perSite[k]-unrefined[c.ob.Harness+"/"+c.ob.Label] <= 3 {
 				kept = append(kept, c)
 			}
 		}
@@ -345,6 +356,11 @@ func cmdCheck(args []string) int {
 				why = "counterexample violates a harness assumption natively (stub too weak)"
 			}
 			inconclusive = append(inconclusive, fmt.Sprintf("%s/%s@%s: %s; inputs=%v", c.ob.Harness, c.ob.Label, c.ob.PathID, why, readableModel(c.ob.Model)))
+		}
+	}
+	for site, n := range unrefined {
+		if !reportedSite[site+"/assert"] {
+			inconclusive = append(inconclusive, fmt.Sprintf("%s: %d more path(s) violate this assertion symbolically; none of the replayed counterexamples reproduced", site, n))
 		}
 	}
 	for _, vl := range violationLines {
